@@ -51,6 +51,8 @@ MENU = [
     "c(X)",
     "#true",
     "#false",
+    "#false : e(Y)",
+    "#true : f(X)",
 ]
 
 USES = [
